@@ -16,6 +16,7 @@ import (
 	"cffverif/internal/report"
 	"cffverif/internal/gen"
 	"cffverif/internal/genlint"
+	"cffverif/internal/lib"
 	"cffverif/internal/sched"
 	"cffverif/internal/variants"
 )
@@ -38,7 +39,9 @@ func allRules() []report.Rule {
 	var out []report.Rule
 	out = append(out, sched.Rules...)
 	out = append(out, gen.Rules...)
+	out = append(out, variants.TRules...)
 	out = append(out, genlint.Rules...)
+	out = append(out, lib.Rules...)
 	return out
 }
 
@@ -83,6 +86,7 @@ type engineSet struct {
 	sched bool
 	gen   bool
 	lint  bool
+	lib   bool
 }
 
 func parseEngines(s string) engineSet {
@@ -95,10 +99,13 @@ func parseEngines(s string) engineSet {
 			es.gen = true
 		case "lint":
 			es.lint = true
+		case "lib":
+			es.lib = true
 		case "all":
 			es.sched = true
 			es.gen = true
 			es.lint = true
+			es.lib = true
 		}
 	}
 	return es
@@ -110,8 +117,11 @@ func (es engineSet) has(id string) bool {
 	case 'S':
 		return es.sched
 	case 'L':
-		return es.sched && id == "L5"
-	case 'V':
+		if id == "L5" {
+			return es.sched
+		}
+		return es.lib
+	case 'V', 'T':
 		return es.gen
 	case 'G':
 		return es.lint
@@ -135,6 +145,11 @@ func runEngines(es engineSet, tier string, sink *report.Sink) (errs []string) {
 			errs = append(errs, "sched: "+err.Error())
 		}
 	}
+	if es.lib {
+		if err := lib.Run(repo, sink); err != nil {
+			errs = append(errs, "lib: "+err.Error())
+		}
+	}
 	if es.lint {
 		if err := genlint.Run(repo, sink); err != nil {
 			errs = append(errs, "genlint: "+err.Error())
@@ -150,6 +165,9 @@ func runEngines(es engineSet, tier string, sink *report.Sink) (errs []string) {
 				errs = append(errs, "variants: "+err.Error())
 			} else {
 				sink.SetFact("variants.expanded", len(ins))
+				if err := m.ReportDecisions(sink); err != nil {
+					errs = append(errs, "variants: "+err.Error())
+				}
 				gen.Run(ins, sink)
 			}
 		}
@@ -210,9 +228,15 @@ func cmdCheck(args []string) int {
 	es := engineSet{}
 	for _, r := range rules {
 		switch r.ID[0] {
-		case 'S', 'L':
+		case 'S':
 			es.sched = true
-		case 'V':
+		case 'L':
+			if r.ID == "L5" {
+				es.sched = true
+			} else {
+				es.lib = true
+			}
+		case 'V', 'T':
 			es.gen = true
 		case 'G':
 			es.lint = true
